@@ -219,3 +219,54 @@ func vC11Conn(K int) {
 
 func vhC11_conn_K4() { vC11Conn(4) }
 func vhC11_conn_K5() { vC11Conn(5) }
+
+// C11 (concurrent part): two threads use one shared / connectable observable at
+// the same time; the source yields inside its subscribe function.  At most one
+// upstream subscription is ever live, Connect while connecting/connected does
+// not subscribe again, the reference count returns to zero.
+func vC11Conc() {
+	which := vChoice("kind", 2)
+	p := &vProbe{name: "src", yieldSub: true}
+	if which == 0 {
+		conn := Connectable[int64](p)
+		rec := &vRecorder{quiet: true}
+		conn.SubscribeWithContext(context.Background(), vObs(rec, vFlatInt))
+		for t := 0; t < 2; t++ {
+			vGo(func() { conn.Connect() })
+		}
+		vQuiesce()
+		vAssert(p.maxLive <= 1, "Connectable: more than one live subscription to the source under concurrent Connect")
+		vAssert(p.subs == 1, "Connectable: concurrent Connect calls subscribed the source more than once")
+		if p.live > 0 {
+			p.emit(vStep{vkNext, 7})
+		}
+		vAssert(rec.nexts() <= 1, "Connectable: a value was delivered more than once")
+	} else {
+		shared := Share[int64]()(p)
+		recs := []*vRecorder{{quiet: true}, {quiet: true}}
+		unsub := vChoice("unsub", 2) == 1
+		for t := 0; t < 2; t++ {
+			t := t
+			vGo(func() {
+				sub := shared.SubscribeWithContext(context.Background(), vObs(recs[t], vFlatInt))
+				if unsub {
+					sub.Unsubscribe()
+				}
+			})
+		}
+		vQuiesce()
+		vAssert(p.maxLive <= 1, "Share: more than one live subscription to the source under concurrent subscribers")
+		if unsub {
+			vAssert(p.live == 0, "Share: the upstream subscription outlived the last subscriber")
+		} else {
+			vAssert(p.live == 1, "Share: no live upstream subscription although subscribers are attached")
+			p.emit(vStep{vkNext, 7})
+			for _, r := range recs {
+				vAssert(r.nexts() == 1, "Share: a current subscriber did not receive the notification exactly once")
+			}
+		}
+	}
+	vReach("end")
+}
+
+func vhC11_conc_2() { vC11Conc() }
